@@ -299,8 +299,15 @@ def r_find(repo, rep):
           if d_.how == 'assign' and isinstance(d_.value, ast.Call) and norm(d_.value.func).endswith('TimeWindow'):
             calls, at = [d_.value], d_.node
       if len(calls) != 1:
-        rep.violation('R4/parse', f.qualname, norm(a.ast)[:100],
-                      'the appended element is not constructed through TimeWindow, so reversed ranges are not rejected', f.loc(a.ast))
+        # recognised bad shape: the element is a plain pair / list / timestamp; anything else (e.g. the result of a parser
+        # looked up in a table) is not visible here
+        elems = appended if 'appended' in dir() and appended else []
+        plain = any(isinstance(x_, (ast.Tuple, ast.List)) or (isinstance(x_, ast.Call) and norm(x_.func).endswith('Timestamp')) for x_ in elems)
+        if plain:
+          rep.violation('R4/parse', f.qualname, norm(a.ast)[:100],
+                        'the appended element is not constructed through TimeWindow, so reversed ranges are not rejected', f.loc(a.ast))
+        else:
+          rep.undecided('R4/parse', 'appended element', 'the appended element `%s` is not visibly constructed by TimeWindow in this function' % norm(a.ast)[:60], f.loc(a.ast))
         continue
       rep.ok('R4/parse', 'appended element is built by TimeWindow (ordering guard applies)', loc=f.loc(calls[0]))
       tw = calls[0]
